@@ -628,7 +628,10 @@ func (m *SparseIntMatrix) Import(filename string) error {
     } else {
       colIndices = append(colIndices, int(v))
     }
-    if v, err := strconv.ParseFloat(fields[2], 64); err != nil {
+    // integer literals are converted exactly (zero keeps its sign below)
+    if v, err := strconv.ParseInt(fields[2], 10, 64); err == nil && v != 0 {
+      values = append(values, int(v))
+    } else if v, err := strconv.ParseFloat(fields[2], 64); err != nil {
       return err
     } else {
       values = append(values, int(v))
